@@ -8,11 +8,13 @@ CONSTANTS
   Record = FALSE
   Starts = {0, 1}
   CtxChoices = {3, 9}
+  HCs = {"plain"}
+  WireRich = FALSE
   Rich = FALSE
   Sim = FALSE
 INIT MCInit
 NEXT MCNext
 VIEW StateView
 INVARIANTS TypeOK CtxResult
-PROPERTIES FirstGood200 RetryOnlyOn OthersImmediate HonoursRetryAfter CapPlusJitter NoDelayOn408 WaitIsBackoffPlusJitter UntilInWindow PendingOnlyExtended MultMonotone NoPostAfterCtx PromptCtxSafe RedirectNotOK
+PROPERTIES FirstGood200 RetryOnlyOn OthersImmediate HonoursRetryAfter CapPlusJitter NoDelayOn408 WaitIsBackoffPlusJitter UntilInWindow PendingOnlyExtended MultMonotone NoPostAfterCtx PromptCtxSafe RedirectNotOK SpellingIrrelevant HandedBack
 CHECK_DEADLOCK FALSE
